@@ -55,7 +55,74 @@ func (w *World) ImportC(hint uint32) error {
 		return err
 	}
 	w.ImportQueued = true
+	w.CImportHint, w.CImportHeight = hint, w.N.Height()
+	w.CUsedAtImport = w.cUsed()
 	return w.registerC(ws.WalletID)
+}
+
+const cSpan = 24
+
+// cUsed lists the key-chain indexes of wallet C that have history on the current best chain.
+func (w *World) cUsed() map[uint32]bool {
+	used := map[uint32]bool{}
+	l := w.Ledger()
+	for i := uint32(0); i < cSpan; i++ {
+		ra, err := w.CAddr(i)
+		if err != nil {
+			continue
+		}
+		for _, c := range l.ByOrder {
+			if c.Hash != nil && string(c.Hash) == string(ra.Hash) {
+				used[i] = true
+				break
+			}
+		}
+	}
+	return used
+}
+
+// CheckRestoreC is the discovery oracle of a completed mnemonic import (C07): every address
+// of the key chain that had best-chain history when the import was called and is reachable
+// under the gap rule from the import's index hint must be held by the restored wallet. The
+// key chain comes from the independent derivation, not from the instance.
+func (w *World) CheckRestoreC() []string {
+	wl := w.Wallets["C"]
+	if wl == nil || w.TaskStatus("C") != "ready" {
+		return nil
+	}
+	const span = cSpan
+	// history that existed when the import was called AND is still on the best chain
+	now := w.cUsed()
+	used := map[uint32]bool{}
+	var ref [span]*enum.RefAddr
+	for i := uint32(0); i < span; i++ {
+		ra, err := w.CAddr(i)
+		if err != nil {
+			return []string{"reference derivation: " + err.Error()}
+		}
+		ref[i] = ra
+		used[i] = w.CUsedAtImport[i] && now[i]
+	}
+	held := map[string]bool{}
+	addrs, err := w.I.W.VerifKeystoreManager().GetAddrs(wl.ID)
+	if err != nil {
+		return []string{"restored wallet: " + err.Error()}
+	}
+	for _, a := range addrs {
+		held[a] = true
+	}
+	var d []string
+	gap := w.Opt.Gap
+	bound := w.CImportHint + gap
+	for i := uint32(0); i < span && i < bound; i++ {
+		if used[i] {
+			bound = i + 1 + gap
+			if !held[ref[i].Std] {
+				d = append(d, fmt.Sprintf("restore (hint %d, gap %d) does not hold address index %d (%s), which had best-chain history at import time and lies within the gap rule", w.CImportHint, gap, i, ref[i].Std))
+			}
+		}
+	}
+	return d
 }
 
 func (w *World) registerC(id string) error {
